@@ -39,7 +39,7 @@ def rpo(body):
 
 
 def mir_schedule(F, path):
-    body = F.mir.get(path)
+    body = F.mir.get(F.resolve(path))
     if body is None:
         raise FX.AnchorMissing(path)
     ops = []
